@@ -195,6 +195,17 @@ class Check(FormulaCheck):
             g = self.ev('IF(v_x,v_a,v_b)', v_x=x, v_a=a, v_b=b)
             exp = a if tv(x) else b
             self.expect('C12/IF', g is exp or (g == exp and type(g) is type(exp)), cond=x, then=a, otherwise=b, got=g)
+            # an error in the branch that is NOT chosen is not the value of IF; one in the chosen branch is
+            ERRB = [('1/0', 'ERR:#DIV/0!'), ('NA()', 'ERR:#N/A'), ('v_m', 'ERR:#NUM!'), ('v_e', 'ERR:#REF!'), ('"a"+1', 'ERR:#VALUE!')]
+            (ta, ea), (tb, eb) = rnd.choice(ERRB + [('v_a', a)] * 3), rnd.choice(ERRB + [('v_b', b)] * 3)
+            if ta != 'v_a' or tb != 'v_b':
+                f2 = 'IF(v_x,%s,%s)' % (ta, tb)
+                g = self.ev(f2, v_x=x, v_a=a, v_b=b, v_e=self.objs['#REF!'], v_m=self.objs['#NUM!'])
+                exp = ea if tv(x) else eb
+                self.expect('C12/IF:error-in-a-branch', g is exp or (g == exp and type(g) is type(exp)), formula=f2, cond=x, then=ea, otherwise=eb, got=g)
+                g = self.ev('IFERROR(%s,"trapped")' % f2)
+                self.expect('C12/IF:error-in-a-branch', g == ('trapped' if self.is_err(exp) else exp), formula='IFERROR(%s,"trapped")' % f2, cond=x, got=g)
+                rec.nt(('IF-err', repr(x), ta, tb))
             rec.sample({'formula': f, 'target': repr(target), 'cases': repr(cases)})
 
     # ---------------------------------------------------------------- predicates
